@@ -1718,3 +1718,23 @@ R.mutant("list-tidy-returns-wrapper-unmarked", COLL,
                 sub("        _tidy(append)\n        return append\n", "        return _plain(append)\n"),
                 sub("    l = locals().copy()\n    l.pop(\"_tidy\")\n    return l\n\n\ndef _dict_decorators()", "    l = locals().copy()\n    l.pop(\"_tidy\")\n    l.pop(\"_plain\")\n    return l\n\n\ndef _dict_decorators()")),
          "C38-R8")
+# further everyday shapes
+R.mutant("benign-set-add-early-return-for-present-member", COLL,
+         sub("            if value not in self:\n                value = __set(self, value, _sa_initiator, NO_KEY)\n            else:\n                __set_wo_mutation(self, value, _sa_initiator)\n            # testlib.pragma exempt:__hash__\n            fn(self, value)\n",
+             "            if value in self:\n                __set_wo_mutation(self, value, _sa_initiator)\n                fn(self, value)\n                return\n            value = __set(self, value, _sa_initiator, NO_KEY)\n            # testlib.pragma exempt:__hash__\n            fn(self, value)\n"),
+         None)
+R.mutant("benign-dict-update-sentinel-arms-swapped", COLL,
+         sub("            if __other is not NO_ARG:\n                if hasattr(__other, \"keys\"):\n", "            if __other is NO_ARG:\n                pass\n            else:\n                if hasattr(__other, \"keys\"):\n"),
+         None)
+R.mutant("benign-list-setitem-scalar-existing-none-arms-swapped", COLL,
+         sub("                existing = self[index]\n                if existing is not None:\n                    __del(self, existing, None, index)\n",
+             "                existing = self[index]\n                if existing is None:\n                    pass\n                else:\n                    __del(self, existing, None, index)\n"),
+         None)
+R.mutant("benign-list-iadd-delegates-to-extend", COLL,
+         sub("            # raise as-is instead of returning NotImplemented\n            for value in list(iterable):\n                self.append(value)\n            return self\n",
+             "            # raise as-is instead of returning NotImplemented\n            self.extend(iterable)\n            return self\n"),
+         None)
+R.mutant("benign-dict-popitem-unpacked", COLL,
+         sub("            item = fn(self)\n            __del(self, item[1], None, 1)\n            return item\n",
+             "            popped = fn(self)\n            value = popped[1]\n            __del(self, value, None, 1)\n            return popped\n"),
+         None)
